@@ -2,19 +2,17 @@
    `eval` mirrors the dispatch of the Python operators (kind tests, shape guards, which
    construction is used); `deval` is the dense specification of the same expression. *)
 From Coq Require Import List Arith Bool ZArith.
-From TT Require Import RingSig SumN Mat Dense Core Arith MatOps Reduce.
+From TT Require Import RingSig SumN Mat Dense Core Arith MatOps Reduce Struct Index.
 Import ListNotations.
 
 (* scalar operand kinds, as the Python dispatch sees them *)
 Inductive skind := KInt | KFloat | KComplex | KBool | KNpF64 | KNpF32 | KNpI64 | KT0 | KT1.
-(* exception classes *)
-Inductive errc := EShape | ERank | ETypes | EArgs | ENotImpl | ETorch | EPyType | EPyUnbound
-                | EPyAttr | EPyIndex | EPyValue | EModel (* outside the modelled domain *).
 
 Inductive opn :=
   | OAdd | OSub | OMul | ONeg | OPos | ORAdd | ORSub | ORMul | ODiv | OKron | OOnes | OZeros | ORank1
   | OMatmul | OTr | OEye | OForward
-  | ODot | ONorm2 | OSum | OBilinear.
+  | ODot | ONorm2 | OSum | OBilinear
+  | OCat | OPad | OMprod | ODiag | OToTTM | OConj | OClone.
 
 Section Expr.
 Context {R : Type} {RO : RingOps R}.
@@ -29,7 +27,9 @@ Inductive exp :=
   | EScal (k : skind) (s : R)
   | ENone
   | EVar (n : nat)
-  | EOp (o : opn) (args : list exp) (ia : list (list nat)).
+  | EOp (o : opn) (args : list exp) (ia : list (list nat))
+  | EGet (x : exp) (tuple : bool) (ix : list ixitem)
+  | EMask (x : exp) (rows : list (list nat)).
 
 Definition lit3 (cores : list (nat * nat * nat * list R)) : tt R :=
   map (fun c => match c with (a, n, b, data) => core_of_flat a n b data end) cores.
@@ -110,6 +110,39 @@ Definition apply_op (o : opn) (args : list val) (ia : list (list nat)) : val :=
   | OBilinear, [VT x; VM A; VT y] =>
       if eqb_ln (shape x) (shapeM A) && eqb_ln (shape y) (shapeN A) then scalar_d (bilinear_form x A y)
       else VErr EShape
+  | OCat, VT x :: rest =>
+      match ia with
+      | [[dim]] =>
+          let ts := fold_right (fun v acc => match v, acc with VT t, Some l => Some (t :: l) | _, _ => None end) (Some []) rest in
+          match ts with
+          | Some l => if (dim <? length x)%nat && forallb (fun t => Nat.eqb (length t) (length x) && eqb_ln (upd dim 0 (shape t)) (upd dim 0 (shape x))) l
+                      then VT (cat_tt dim (x :: l)) else VErr EArgs
+          | None => VErr EModel
+          end
+      | _ => VErr EModel
+      end
+  | OPad, [VT x; VS _ v] =>      (* ia = [kind; d] :: padding pairs *)
+      let pd := map (fun p => (nth 0 p 0, nth 1 p 0)%nat) (tl ia) in
+      if (length x <? length pd)%nat then VErr EArgs else VT (pad_tt x pd v)
+  | OPad, [VM x; VS _ v] =>
+      let pd := map (fun p => (nth 0 p 0, nth 1 p 0)%nat) (tl ia) in
+      if (length x <? length pd)%nat then VErr EArgs else VM (pad_ttm x pd v)
+  | OMprod, VT x :: mats =>
+      match ia with
+      | modes :: _ =>
+          let ms := fold_right (fun km acc => match km, acc with
+                      | (k, VD d), Some l => Some ((k, nth 0 (dshape d) 0%nat, fun i j => dget d [i; j]) :: l)
+                      | _, _ => None end) (Some []) (combine modes mats) in
+          match ms with Some l => VT (mprod_list x l) | None => VErr EModel end
+      | _ => VErr EModel
+      end
+  | ODiag, [VT x] => VM (diag_tt x)
+  | ODiag, [VM x] => VT (diag_ttm x)
+  | OToTTM, [VT x] => VM (to_ttm x)
+  | OConj, [VT x] => VT (conj_tt x)
+  | OConj, [VM x] => VM (conj_ttm x)
+  | OClone, [VT x] => VT x
+  | OClone, [VM x] => VM x
   | OAdd, [VM x; VM y] => ttm_binop add4 x y
   | OSub, [VM x; VM y] => ttm_binop sub4 x y
   | OMul, [VM x; VM y] => ttm_binop mul4 x y
@@ -155,11 +188,42 @@ Fixpoint eval (env : list val) (e : exp) : val :=
   | ENone => VNone
   | EVar n => nth n env (VErr EModel)
   | EOp o args ia => apply_op o (map (eval env) args) ia
+  | EGet x tuple ix =>
+      let of_gres g := match g with GT y => VT y | GM y => VM y | GS v => scalar_d v | GE e => VErr e end in
+      match eval env x with
+      | VT t => of_gres (if tuple then getitem_tuple t ix
+                         else match ix with [it] => getitem_single t it | _ => GE EModel end)
+      | VM t => if tuple then of_gres (getitem_ttm t ix) else VErr EModel
+      | _ => VErr EModel
+      end
+  | EMask x rows =>
+      match eval env x with
+      | VT t => match rows with
+                | [idx] => scalar_d (hd rO (apply_mask t rows))
+                | _ => VD (dense_of_flat [length rows] (apply_mask t rows))
+                end
+      | _ => VErr EModel
+      end
   end.
 
 (* ---- dense specification of the same expressions ---- *)
 Definition dapply_op (o : opn) (args : list val) (ia : list (list nat)) : val :=
   match o, args, ia with
+  | OCat, VD a :: rest, [[dim]] =>
+      VD (fold_left (fun acc v => match v with VD b => dcat dim acc b | _ => acc end) rest a)
+  | OPad, [VD a; VS _ v], [0%nat; d] :: pds =>
+      VD (dpad a (fill_pads d (map (fun p => (nth 0 p 0, nth 1 p 0)%nat) pds)) v)
+  | OPad, [VD a; VS _ v], [1%nat; d] :: pds =>
+      VD (dpad_op d a (fill_pads d (map (fun p => (nth 0 p 0, nth 1 p 0)%nat) pds)) v)
+  | OMprod, VD a :: mats, modes :: _ =>
+      VD (fold_left (fun acc km => match km with
+                     | (k, VD m) => dmprod acc k (nth 0 (dshape m) 0%nat) (fun i j => dget m [i; j])
+                     | _ => acc end) (combine modes mats) a)
+  | ODiag, [VD a], [[0%nat]] => VD (ddiag_embed a)
+  | ODiag, [VD a], [[1%nat; d]] => VD (ddiag_extract d a)
+  | OToTTM, [VD a], _ => VD (dto_op a)
+  | OConj, [VD a], _ => VD (dmap rconj a)
+  | OClone, [VD a], _ => VD a
   | OMatmul, [VD A; VD x], [[d; 0]] => VD (dmatvec d A x)
   | OMatmul, [VD x; VD A], [[d; 1]] => VD (dvecmat d x A)
   | OMatmul, [VD A; VD B], [[d; 2]] => VD (dmatmat d A B)
@@ -206,6 +270,19 @@ Fixpoint deval (env : list val) (e : exp) : val :=
   | ENone => VNone
   | EVar n => nth n env (VErr EModel)
   | EOp o args ia => dapply_op o (map (deval env) args) ia
+  | EGet x tuple ix =>
+      match deval env x with
+      | VD a => match dgetitem a ix with Some r => VD r | None => VErr EModel end
+      | _ => VErr EModel
+      end
+  | EMask x rows =>
+      match deval env x with
+      | VD a => match rows with
+                | [idx] => VD (mkD [] (fun _ => dget a idx))
+                | _ => VD (dense_of_flat [length rows] (map (dget a) rows))
+                end
+      | _ => VErr EModel
+      end
   end.
 
 (* ---- observations ---- *)
